@@ -137,6 +137,12 @@ class C02(Prop):
         else:
             bl.compare_portfolio(case, impl, mod, self.FIELDS, j)
             holdings_predicate_pf(case, impl, j)
+            for pr in impl.get('probe', []):
+                if len(pr) != 6:
+                    j.failures.append('a mark of %s without a timestamp was refused: %s' % (pr[0], pr[1:]))
+                elif pr[1] != pr[2] or abs(pr[4] - pr[1] * pr[3]) > 1e-9 * max(1.0, abs(pr[4])):
+                    j.failures.append('after a mark of %s at %s (no timestamp) the position is priced %s and valued %s for quantity %s'
+                                      % (pr[0], pr[1], pr[2], pr[4], pr[3]))
             sig = tuple((op[0], st['res'][0], tuple((h[0], h[1] > 0) for h in st['pub'])) for op, st in zip(case['ops'], impl['steps']))
         j.key = hash((case['kind'], sig))
         return j
